@@ -5,6 +5,7 @@ package main
 
 import (
 	"fmt"
+	"go/constant"
 	"go/types"
 	"sort"
 	"strings"
@@ -72,6 +73,271 @@ func (m *Machine) packageScan() *FuncReport {
 			ok, why = recoversPanics(fn)
 		}
 		rep.Obligs = append(rep.Obligs, m.pkgObl("recovers", key, []string{"C14"}, ok, why, "a deferred closure calls recover() and assigns the error result"))
+	}
+	// C14: no panic of the reflective assembly escapes a documented decode entry point.  A function
+	// may let one escape when it is not itself a recover point and calls into package reflect (every
+	// reflect operation has panicking preconditions) or formats/asserts nothing but calls such a
+	// function; computed as a least fixpoint over the static call graph of the package.
+	if len(pc.DecodeEntries) > 0 {
+		escapes := map[*ssa.Function]string{}
+		calleesOf := func(fn *ssa.Function) (reflectCall string, callees []*ssa.Function) {
+			var walk func(f *ssa.Function)
+			seen := map[*ssa.Function]bool{}
+			walk = func(f *ssa.Function) {
+				if seen[f] {
+					return
+				}
+				seen[f] = true
+				for _, b := range f.Blocks {
+					for _, ins := range b.Instrs {
+						if mc, ok := ins.(*ssa.MakeClosure); ok {
+							// closures created here run on behalf of this function (deferred recover closures are harmless)
+							if cf, ok := mc.Fn.(*ssa.Function); ok {
+								if rec, _ := closureRecovers(cf); !rec {
+									walk(cf)
+								}
+							}
+						}
+						ci, ok := ins.(ssa.CallInstruction)
+						if !ok {
+							continue
+						}
+						if callee := ci.Common().StaticCallee(); callee != nil {
+							if callee.Pkg == m.pkg {
+								callees = append(callees, callee)
+							} else if callee.Pkg != nil && callee.Pkg.Pkg.Path() == "reflect" && reflectCall == "" {
+								reflectCall = callee.Name() + "@" + m.site(ins)
+							}
+						}
+					}
+				}
+			}
+			walk(fn)
+			return
+		}
+		type info struct {
+			refl    string
+			callees []*ssa.Function
+			guarded bool
+		}
+		infos := map[*ssa.Function]*info{}
+		for _, fn := range fns {
+			r, cs := calleesOf(fn)
+			g, _ := recoversPanics(fn)
+			infos[fn] = &info{refl: r, callees: cs, guarded: g}
+		}
+		for changed := true; changed; {
+			changed = false
+			for _, fn := range fns {
+				in := infos[fn]
+				if in.guarded || escapes[fn] != "" {
+					continue
+				}
+				if in.refl != "" {
+					escapes[fn] = "calls reflect." + in.refl
+					changed = true
+					continue
+				}
+				for _, c := range in.callees {
+					if escapes[c] != "" {
+						escapes[fn] = "calls " + funcKey(c) + " (" + escapes[c] + ")"
+						changed = true
+						break
+					}
+				}
+			}
+		}
+		// C14: no error message of the decode path formats a decoded value (a decoded list can contain
+		// itself, and fmt recurses on it until the stack is exhausted - a fatal error no recover catches).
+		// Arguments handed to fmt / the logger / newCodecError must have a static type that cannot hold a
+		// decoded container: basic types, strings, errors, reflect.Type, reflect.Kind; a recovered panic
+		// value is allowed (panics of this package carry strings and errors).
+		reach := map[*ssa.Function]bool{}
+		var mark func(f *ssa.Function)
+		mark = func(f *ssa.Function) {
+			if f == nil || reach[f] {
+				return
+			}
+			reach[f] = true
+			if in := infos[f]; in != nil {
+				for _, c := range in.callees {
+					mark(c)
+				}
+			}
+			for _, b := range f.Blocks {
+				for _, ins := range b.Instrs {
+					if mc, ok := ins.(*ssa.MakeClosure); ok {
+						if cf, ok := mc.Fn.(*ssa.Function); ok {
+							mark(cf)
+						}
+					}
+				}
+			}
+		}
+		for _, key := range pc.DecodeEntries {
+			mark(m.findFunc(key))
+		}
+		safeArg := func(t types.Type) bool {
+			if isErrorType(t) {
+				return true
+			}
+			ts := t.String()
+			if ts == "reflect.Type" || ts == "reflect.Kind" || ts == "time.Time" || ts == "time.Duration" {
+				return true
+			}
+			switch u := t.Underlying().(type) {
+			case *types.Basic:
+				return u.Kind() != types.UnsafePointer
+			}
+			return false
+		}
+		isFormatter := func(c *ssa.CallCommon) bool {
+			callee := c.StaticCallee()
+			if callee != nil {
+				if callee.Pkg == m.pkg && callee.Name() == "newCodecError" {
+					return true
+				}
+				if callee.Pkg != nil && callee.Pkg.Pkg.Path() == "fmt" {
+					return true
+				}
+				return false
+			}
+			if c.IsInvoke() && strings.Contains(c.Value.Type().String(), "logger") {
+				return true
+			}
+			return false
+		}
+		var reachFns []*ssa.Function
+		for f := range reach {
+			reachFns = append(reachFns, f)
+		}
+		sort.Slice(reachFns, func(i, j int) bool { return funcKey(reachFns[i]) < funcKey(reachFns[j]) })
+		for _, fn := range reachFns {
+			var bad []string
+			for _, b := range fn.Blocks {
+				for _, ins := range b.Instrs {
+					ci, ok := ins.(ssa.CallInstruction)
+					if !ok || !isFormatter(ci.Common()) {
+						continue
+					}
+					// the arguments in order: fixed ones, then the elements stored into the variadic array
+					var vals []ssa.Value
+					for _, a := range ci.Common().Args {
+						if sl, ok := a.(*ssa.Slice); ok {
+							if al, ok := sl.X.(*ssa.Alloc); ok {
+								elems := map[int64]ssa.Value{}
+								var maxIdx int64 = -1
+								for _, ref := range *al.Referrers() {
+									if ia, ok := ref.(*ssa.IndexAddr); ok {
+										idx := int64(-1)
+										if c, ok := ia.Index.(*ssa.Const); ok {
+											idx = c.Int64()
+										}
+										for _, r2 := range *ia.Referrers() {
+											if st, ok := r2.(*ssa.Store); ok {
+												elems[idx] = st.Val
+												if idx > maxIdx {
+													maxIdx = idx
+												}
+											}
+										}
+									}
+								}
+								for k := int64(0); k <= maxIdx; k++ {
+									vals = append(vals, elems[k])
+								}
+								continue
+							}
+						}
+						vals = append(vals, a)
+					}
+					unbox := func(v ssa.Value) ssa.Value {
+						for {
+							switch x := v.(type) {
+							case *ssa.MakeInterface:
+								v = x.X
+							case *ssa.ChangeInterface:
+								v = x.X
+							default:
+								return v
+							}
+						}
+					}
+					// the verbs of a constant format string, in argument order
+					var verbs []byte
+					fmtAt := -1
+					for k, v := range vals {
+						if v == nil {
+							continue
+						}
+						if c, ok := unbox(v).(*ssa.Const); ok && c.Value != nil && c.Value.Kind() == constant.String {
+							if callee := ci.Common().StaticCallee(); callee != nil && callee.Name() == "newCodecError" && k == 0 {
+								continue // the data type name
+							}
+							f := constant.StringVal(c.Value)
+							fmtAt = k
+							for p := 0; p < len(f); p++ {
+								if f[p] != '%' {
+									continue
+								}
+								p++
+								for p < len(f) && strings.IndexByte("+-# 0123456789.[]*", f[p]) >= 0 {
+									p++
+								}
+								if p < len(f) && f[p] != '%' {
+									verbs = append(verbs, f[p])
+								}
+							}
+							break
+						}
+					}
+					for k, v := range vals {
+						if v == nil {
+							continue
+						}
+						src := unbox(v)
+						t := src.Type()
+						if call, ok := src.(*ssa.Call); ok {
+							if bi, ok := call.Call.Value.(*ssa.Builtin); ok && bi.Name() == "recover" {
+								continue
+							}
+						}
+						if ue, ok := src.(*ssa.UnOp); ok {
+							// a recovered value kept in a local of the recovering closure
+							_ = ue
+						}
+						if t.String() == "[]interface{}" {
+							continue // the forwarded variadic slice itself (newCodecError -> fmt): its elements are checked at the caller
+						}
+						if fmtAt >= 0 && k > fmtAt && k-fmtAt-1 < len(verbs) && verbs[k-fmtAt-1] == 'T' {
+							continue // %T prints the type only
+						}
+						if !safeArg(t) {
+							bad = append(bad, fmt.Sprintf("%s formats a %s", m.site(ins), t.String()))
+						}
+					}
+				}
+			}
+			if len(bad) > 0 || infos[fn] != nil {
+				why := strings.Join(bad, "; ")
+				if len(why) > 300 {
+					why = why[:300] + "..."
+				}
+				rep.Obligs = append(rep.Obligs, m.pkgObl("safe-format", funcKey(fn), []string{"C14"}, len(bad) == 0, why, "messages built on the decode path name types, never decoded values"))
+			}
+		}
+		for _, key := range pc.DecodeEntries {
+			fn := m.findFunc(key)
+			ok, why := false, "no such function"
+			if fn != nil {
+				why = escapes[fn]
+				ok = why == ""
+				if len(why) > 300 {
+					why = why[:300] + "..."
+				}
+			}
+			rep.Obligs = append(rep.Obligs, m.pkgObl("panic-guarded", key, []string{"C14"}, ok, why, "every path from this entry point to a reflect operation passes a function that recovers"))
+		}
 	}
 	props := []string{"C12"}
 	isRef := func(t types.Type) bool {
@@ -173,6 +439,20 @@ func (m *Machine) packageScan() *FuncReport {
 			m.pkgObl("global-readonly-use", key, props, len(badUse) == 0, strings.Join(badUse, " "), "references loaded from read-only globals are passed only to declared read-only uses"))
 	}
 	return rep
+}
+
+// closureRecovers: the closure calls recover() (it is a recovery handler, not work done for its maker).
+func closureRecovers(cl *ssa.Function) (bool, string) {
+	for _, b := range cl.Blocks {
+		for _, ci := range b.Instrs {
+			if call, ok := ci.(*ssa.Call); ok {
+				if bi, ok := call.Call.Value.(*ssa.Builtin); ok && bi.Name() == "recover" {
+					return true, ""
+				}
+			}
+		}
+	}
+	return false, ""
 }
 
 // recoversPanics: fn defers (in its entry block, before any other call) a closure that calls
